@@ -5,6 +5,7 @@ import (
 	"errors"
 	"fmt"
 	"io"
+	"math"
 	"slices"
 	"strconv"
 	"strings"
@@ -154,16 +155,12 @@ func Cmp(ei, ej Object) int {
 	ti := ei.Type()
 	tj := ej.Type()
 	if areIntFloat(ti, tj) {
-		// We have float and integer, let's sort them together.
-		var v1, v2 float64
+		// We have float and integer, let's sort them together (exactly: converting the integer
+		// to float64 would make distinct integers beyond 2^53 both "equal" to the same float).
 		if ti == INTEGER {
-			v1 = float64(ei.(Integer).Value)
-			v2 = ej.(Float).Value
-		} else {
-			v1 = ei.(Float).Value
-			v2 = float64(ej.(Integer).Value)
+			return cmpIntFloat(ei.(Integer).Value, ej.(Float).Value)
 		}
-		return cmp.Compare(v1, v2)
+		return -cmpIntFloat(ej.(Integer).Value, ei.(Float).Value)
 	}
 	if ti < tj {
 		return -1
@@ -240,6 +237,25 @@ func Cmp(ei, ej Object) int {
 		panic(fmt.Sprintf("Unexpected type in Cmp: %s", ti))
 	}
 	return 1
+}
+
+// cmpIntFloat compares an integer and a float by exact numeric value.
+// Like cmp.Compare, NaN is considered less than any number.
+func cmpIntFloat(i int64, f float64) int {
+	switch {
+	case math.IsNaN(f):
+		return 1
+	case f >= 1<<63:
+		return -1
+	case f < -(1 << 63):
+		return 1
+	}
+	// f is within int64 range: compare integral parts, then the fractional part.
+	t := math.Trunc(f)
+	if c := cmp.Compare(i, int64(t)); c != 0 {
+		return c
+	}
+	return cmp.Compare(0, f-t)
 }
 
 func CompareKeys(a, b keyValuePair) int {
